@@ -1,0 +1,7 @@
+//go:build !verif
+
+// Package veriftrace emits verification trace events (enabled with -tags verif).
+package veriftrace
+
+// Emit is a no-op without the verif build tag.
+func Emit(string, ...any) {}
